@@ -4,12 +4,12 @@
    generic (Proofs/GenesisProofs.v).  The property is false for the (module, prefix) pairs listed in
    [known_holes] (classes kf_C20 3..6, 8..11, 14..16); each class has a [_refuted] statement, and
    the positive theorems are stated on the complement.
-   fixed: property=C20 PENDING collector ExportGenesis emitted zero-valued net-fee records (class 1)
-   fixed: property=C20 PENDING auctionsV2 InitGenesis reset the exported auction id and user bid id
+   fixed: property=C20 f97a387 collector ExportGenesis emitted zero-valued net-fee records (class 1)
+   fixed: property=C20 52f646d auctionsV2 InitGenesis reset the exported auction id and user bid id
           counters to 0 (class 2)
-   fixed: property=C20 PENDING auction V1 InitGenesis filled the lend dutch auctions (and their id
+   fixed: property=C20 043e2ee auction V1 InitGenesis filled the lend dutch auctions (and their id
           counter) from the DutchAuction field instead of DutchLendAuction (class 7)
-   fixed: property=C20 PENDING collector InitGenesis dropped the lookup table, the auction mapping and
+   fixed: property=C20 17e806f collector InitGenesis dropped the lookup table, the auction mapping and
           the denoms mapping when the validating lookup setter failed (class 12)
    These classes and their [_refuted] theorems are deleted; their witnesses are the regression
    examples [c20_*_regression] below and forced cases of the behavioural runs (TestC20 cases 0, 1;
